@@ -53,6 +53,7 @@ def valueResolve (name : Bytes) : Bytes :=
   else if name = symBytes "a#1e" then symBytes "9"
   else if name = symBytes "rate" then symBytes "1.5"
   else if name = symBytes "A1e" then symBytes "4"
+  else if name = symBytes "A1E" then symBytes "4"
   -- terminating chains: the answer names another variable (the Go loop re-scans the substituted text)
   else if name = symBytes "ch" then symBytes "$x"
   else if name = symBytes "ch2" then symBytes "$ch"
